@@ -436,7 +436,11 @@ func (s *ProdState) Produce(_ context.Context, out *vgirpc.OutputCollector, cc *
 		observe(c, cc)
 	})
 	yield("state.produce")
-	return s.step(out, true, 0)
+	err := s.step(out, true, 0)
+	if f := TurnDone; f != nil {
+		f(s.S.Nonce)
+	}
+	return err
 }
 
 // OnCancel implements vgirpc.StreamCanceller.
@@ -473,7 +477,11 @@ func (s *ExchState) Exchange(_ context.Context, input arrow.RecordBatch, out *vg
 		observe(c, cc)
 	})
 	yield("state.exchange")
-	return s.step(out, false, sum)
+	err := s.step(out, false, sum)
+	if f := TurnDone; f != nil {
+		f(s.S.Nonce)
+	}
+	return err
 }
 
 // OnCancel implements vgirpc.StreamCanceller.
@@ -483,6 +491,11 @@ func (s *ExchState) OnCancel(_ context.Context, cc *vgirpc.CallContext) error {
 	s.Dead = true
 	return cancelOutcome(&s.S)
 }
+
+// TurnDone, when set, is called at the end of every scripted stream turn,
+// still inside Produce / Exchange, after the state has emitted (a world uses it
+// to land a fault — the caller hanging up — at exactly that point).
+var TurnDone func(nonce int64)
 
 // cancelOutcome is what a scripted cancel hook does once it has run.
 func cancelOutcome(s *Script) error {
